@@ -117,6 +117,7 @@ func main() {
 					c.Unk(id, "PANIC", "checker", "", fmt.Sprintf("checker panicked: %v\n%s", r, debug.Stack()))
 				}
 			}()
+			props.SetStepPolicy(c)
 			ch.Run(c)
 			if *tier == "thorough" {
 				props.Thorough(c, *repo)
